@@ -169,6 +169,12 @@ func isNilConst(v ssa.Value) bool {
 // constString returns the string value of a string constant.
 func constString(v ssa.Value) (string, bool) {
 	c, ok := v.(*ssa.Const)
+	if ok && nil == c.Value {
+		/* Zero value. */
+		if b, isB := c.Type().Underlying().(*types.Basic); isB && 0 != b.Info()&types.IsString {
+			return "", true
+		}
+	}
 	if !ok || nil == c.Value || constant.String != c.Value.Kind() {
 		return "", false
 	}
@@ -178,6 +184,11 @@ func constString(v ssa.Value) (string, bool) {
 // constInt returns the integer value of an integer constant.
 func constInt(v ssa.Value) (int64, bool) {
 	c, ok := v.(*ssa.Const)
+	if ok && nil == c.Value {
+		if b, isB := c.Type().Underlying().(*types.Basic); isB && 0 != b.Info()&types.IsInteger {
+			return 0, true
+		}
+	}
 	if !ok || nil == c.Value || constant.Int != c.Value.Kind() {
 		return 0, false
 	}
@@ -187,6 +198,11 @@ func constInt(v ssa.Value) (int64, bool) {
 // constBool returns the value of a boolean constant.
 func constBool(v ssa.Value) (bool, bool) {
 	c, ok := v.(*ssa.Const)
+	if ok && nil == c.Value {
+		if b, isB := c.Type().Underlying().(*types.Basic); isB && 0 != b.Info()&types.IsBoolean {
+			return false, true
+		}
+	}
 	if !ok || nil == c.Value || constant.Bool != c.Value.Kind() {
 		return false, false
 	}
@@ -497,4 +513,29 @@ func (p *Prog) usesOfFunc(fn *ssa.Function) []ssa.Instruction {
 		})
 	}
 	return out
+}
+
+// retVal returns the idx'th result of a Return, looking through the spill
+// slot go/ssa uses for results of functions with defers
+// (*slot = v; rundefers; t = *slot; return t).
+func retVal(ret *ssa.Return, idx int) ssa.Value {
+	if idx >= len(ret.Results) {
+		return nil
+	}
+	v := ret.Results[idx]
+	u, ok := v.(*ssa.UnOp)
+	if !ok || token.MUL != u.Op {
+		return v
+	}
+	al, ok := u.X.(*ssa.Alloc)
+	if !ok {
+		return v
+	}
+	b := ret.Block()
+	for k := len(b.Instrs) - 1; k >= 0; k-- {
+		if st, ok := b.Instrs[k].(*ssa.Store); ok && st.Addr == ssa.Value(al) {
+			return st.Val
+		}
+	}
+	return v
 }
